@@ -38,6 +38,10 @@ CHECKS = {
          "Exploration: generated functions of 0-4 parameters with if/else-if/else decision chains to depth 3 and unique return labels are called with literal, variable and namesake arguments and their result is emitted, stored, compared, tested, concatenated, passed on and emitted inside blocks; the output must equal the reference interpreter's (caller-scope arguments, fresh scope, first return wins).",
          "Reference interpreter is the trusted base; function bodies are closed so lexical and dynamic scoping agree; loops inside function bodies not covered.",
          "DESIGN.md §4 C16"),
+ "C09": ("exhaustive nestings (depth 1-3) of the five scope constructs with let/shadow/probe patterns + rapid random nestings; environment-chain reference interpreter",
+         "Exploration: all 155 nestings of {for, user function, partial with data, contentFor/contentOf with data, block helper on a child context} x 4 binding patterns, and thousands of random let/probe/construct programs, render exactly what an environment-chain interpreter predicts for every probe before, inside and after each construct.",
+         "Reference interpreter is the trusted base; single-iteration loops; functions defined where they are called; contentFor/Of in one scope.",
+         "DESIGN.md §4 C09"),
 }
 
 NOT_BUILT = "check not built yet in this session (see DESIGN.md §4 for its plan); will be claimed once its check is committed"
